@@ -662,3 +662,7 @@ Lemma legacy_race :
   o_buf (run0 (init0 match_dtls [[20; 1]; [20; 2]]%N) [0; 1; 0; 0; 1; 2])
   = [[20; 2]; [20; 1]]%N.
 Proof. vm_compute. reflexivity. Qed.
+
+Lemma matchers_no_panic : forall buf,
+  match_srtp buf <> Panic /\ match_srtcp buf <> Panic.
+Proof. intros buf. split; [apply match_srtp_no_panic|apply match_srtcp_no_panic]. Qed.
